@@ -27,6 +27,14 @@ reading the bus subscription, THEN `Close` is called, and only after it has retu
 stopped — an emitter blocked on the full subscription holds the lock `Close` needs (F38) -/
 def subscriberClose : List String := ["drain", "close", "stopdrain"]
 
+/-- `accesscontroller.VerifyEntryAuthor`: the entry is signed with the key of the identity it names; an
+identity of another type is handed to its own provider, which answers for its signature scheme; only
+THEN - for "orbitdb" identities, whose signatures are ECDSA - the canonical (low-S) form is required of
+the entry's and the identity's signatures (F31), before the two identity signatures are verified.
+(Review of F31: the low-S test came before the type test and refused every entry of an identity
+whose signatures are not DER-encoded ECDSA, e.g. Ed25519.) -/
+def verifyAuthor : List String := ["keymatch", "othertype", "provider", "lows", "idlows", "idsig", "keysig"]
+
 /-- the document store's `Get` and `Query`: keys and values are read from ONE state of the view (the
 map `UpdateIndex` swapped in last), not key list first and values one by one (F58) -/
 def docRead : List String := ["onestate", "decode"]
